@@ -925,8 +925,10 @@ def _rt_oracle(case):
                 globs[n] = res
                 todo += res
             rp = real(n)
-            if os.path.isfile(rp):
-                for fmt in fmts:
+            node = _rt_node(case['tree'], n) if os.path.isfile(rp) else None
+            if node is not None:
+                # asked of the real functions for archives / gzip files; a plain text file is known to be refused by both
+                for fmt in (fmts if node['t'] in ('zip', 'tar', 'gztar') else []):
                     tmp = tempfile.mkdtemp(prefix='unp-', dir=d)
                     try:
                         shutil.unpack_archive(rp, tmp, fmt)
@@ -939,11 +941,9 @@ def _rt_oracle(case):
                         realdir[n] = tmp
                     unpacks.append((n, fmt, '<%s>' % n))
                     todo.append('<%s>/**/*.*' % n)
-                try:
+                if node['t'] == 'gz':
                     with gzip.open(rp) as f:
                         gunzips[n] = f.read().decode('latin-1')
-                except Exception:
-                    pass
         return globs, unpacks, gunzips
     finally:
         os.chdir(cwd0)
@@ -1435,7 +1435,7 @@ def gen_cases(rng, tier):
         for tool in (None, '', 'biopython', 'Biopython', 'biopython ', 'x', 'sugar'):
             cases.append({'kind': 'tool', 'entry': e, 'tool': tool})
     # --- the recursion of _resolve_fname on real directory trees
-    for _ in range(1200 if thorough else 150):
+    for _ in range(1200 if thorough else 100):
         cases.append(r_rtree(rng))
     # --- sessions: histories of calls on one handle of seven kinds
     for _ in range(1500 if thorough else 200):
